@@ -1,7 +1,74 @@
-(* C03 placeholder until Proofs/ConserveFacts.v is merged. *)
-From Coq Require Import List ZArith.
-From Eudoxia Require Import Model.Pool.
-Example C03_new_pool_conserved : forall id cpu ram,
-  (p_avail_cpu (new_pool id cpu ram) + 0 = p_max_cpu (new_pool id cpu ram))%Z.
-Proof. intros. simpl. apply Z.add_0_r. Qed.
-Print Assumptions C03_new_pool_conserved.
+(* C03 Pool CPU and RAM are conserved: never lost, never double-freed, never oversold.
+   Statements only; every proof is [exact <lemma of Proofs/ConserveFacts.v>]. They hold for every
+   command sequence (legal or not: an illegal one ends the run with [Err]), every capacity, tick rate,
+   run length, every timing script function and every rounding function. RAM arithmetic is exact in
+   the model (integers / dyadic rationals in the implementation; see DESIGN.md trusted base). *)
+From Coq Require Import List ZArith QArith.
+Import ListNotations.
+From Eudoxia Require Import Model.Types Model.Lifecycle Model.Container Model.Pool Model.Executor
+  Proofs.ConserveFacts.
+
+(* At every tick boundary of every reachable state, in every pool: free + allocated = capacity for CPU
+   and RAM; free CPU is never negative; free RAM is never negative unless overcommit is enabled. *)
+Theorem C03_conserved_every_reachable_state : forall C n cpu ram s p,
+  (0 <= cpu)%Z -> (0 <= ram)%Q ->
+  reach_exec C (init_estate C n cpu ram) s -> In p (e_pools s) ->
+  (p_avail_cpu p + sumZ (map c_cpu (p_active p ++ p_suspending p)) = cpu)%Z /\
+  (p_avail_ram p + sumQ (map c_ram (p_active p ++ p_suspending p)) == ram)%Q /\
+  (0 <= p_avail_cpu p <= cpu)%Z /\
+  (cf_overcommit C = false -> (0 <= p_avail_ram p <= ram)%Q).
+Proof. exact C03_reachable. Qed.
+Print Assumptions C03_conserved_every_reachable_state.
+
+(* A batch that would oversell the pool is rejected as a whole: the pool tick is an error (no state is
+   returned, so no container of the batch exists), with the CPU error when nothing else is wrong. *)
+Theorem C03_oversell_rejected_cpu : forall C w next p ss asgs,
+  asgs <> [] -> (p_avail_cpu p < sumZ (map a_cpu asgs))%Z ->
+  (exists e, pool_tick C w next p ss asgs = Err e) /\
+  pool_tick C w next p [] asgs = Err EOversellCpu.
+Proof. exact oversell_rejected_cpu. Qed.
+Print Assumptions C03_oversell_rejected_cpu.
+
+Theorem C03_oversell_rejected_ram : forall C w next p ss asgs,
+  asgs <> [] -> cf_overcommit C = false -> (p_avail_ram p < sumQ (map a_ram asgs))%Q ->
+  (exists e, pool_tick C w next p ss asgs = Err e) /\
+  ((sumZ (map a_cpu asgs) <= p_avail_cpu p)%Z ->
+   pool_tick C w next p [] asgs = Err EOversellRam).
+Proof. exact oversell_rejected_ram. Qed.
+Print Assumptions C03_oversell_rejected_ram.
+
+(* A container's allocation is returned exactly once, in the tick it leaves: free resources move by
+   exactly (- the accepted batch + the containers that reported a result + the suspensions that
+   finished) in every pool tick. *)
+Theorem C03_returned_in_the_tick_it_leaves : forall C w next p ss asgs w' next' p' res,
+  pool_tick C w next p ss asgs = Ok (w', next', p', res) ->
+  exists done,
+    p_suspended p' = p_suspended p ++ done /\
+    Forall (fun c => is_suspended c = true) done /\
+    Forall (fun c => is_suspended c = false) (p_suspending p') /\
+    Forall (fun c => c_completed c = false) (p_active p') /\
+    p_avail_cpu p' = (p_avail_cpu p - sumZ (map a_cpu asgs)
+                      + sumZ (map r_cpu res) + sumZ (map c_cpu done))%Z /\
+    (p_avail_ram p' == p_avail_ram p - sumQ (map a_ram asgs)
+                       + sumQ (map r_ram res) + sumQ (map c_ram done))%Q.
+Proof. exact pool_tick_returned. Qed.
+Print Assumptions C03_returned_in_the_tick_it_leaves.
+
+(* ... and a container that reported a result is no longer live, each at most once per tick *)
+Theorem C03_results_leave : forall C w next p ss asgs w' next' p' res,
+  pool_tick C w next p ss asgs = Ok (w', next', p', res) ->
+  ids_ok next p ->
+  ids_ok next' p' /\ next' = next + length asgs /\
+  NoDup (map r_cid res) /\
+  (forall r, In r res -> ~ In (r_cid r) (map c_id (live p'))) /\
+  (forall r, In r res ->
+     In (r_cid r) (map c_id (p_active p)) \/ next <= r_cid r < next').
+Proof. exact pool_tick_ids. Qed.
+Print Assumptions C03_results_leave.
+
+(* non-vacuity: a concrete pool tick with a suspension, an assignment, a completion and a finished
+   suspension, and a two-step reachable history *)
+Example C03_witness_reach :
+  reach_exec Examples.ex_cfg Examples.ex_s0 Examples.ex_s2 /\ e_next Examples.ex_s2 = 2
+  /\ length Examples.ex_res2 = 1.
+Proof. exact Examples.ex_reach. Qed.
